@@ -38,6 +38,10 @@ TEMPLATE_LIB = {
 }
 
 
+# templates whose body changes the block structure: the ones pre_expand=True expands
+PRE_EXPAND = {"tb", "te", "row", "li", "b", "sp", "nl", "eq", "pipe"}
+
+
 def new_ctx(d, name="p", templates=False):
     common.use_repo()
     from wikitextprocessor import Wtp
@@ -49,7 +53,14 @@ def new_ctx(d, name="p", templates=False):
         for n, body in TEMPLATE_LIB.items():
             ctx.add_page("Template:" + n, 10, body=body)
         ctx.db_conn.commit()
-        ctx.analyze_templates()
+
+        def classifier(wtp, page):
+            body = page.body or ""
+            used = set(re.findall(r"\{\{([^|{}#:]+)", body))
+            name = page.title.split(":", 1)[-1]
+            return used, name in PRE_EXPAND
+
+        ctx.analyze_templates(classifier)
     return ctx
 
 
@@ -159,6 +170,8 @@ def shape_key(d) -> str:
             out.append("s" + sk(c["s"], False))
         elif "x" in c:
             out.append("X" + c["x"])
+        elif "stub" in c:
+            out.append("~" + c["k"])
         else:
             nd(c)
 
